@@ -199,8 +199,12 @@ pub fn finish() -> ! {
             for (k, v) in r.counters.iter() {
                 dst.count(k, *v);
             }
-            for (sig, d) in r.violations.iter() {
-                dst.violation(sig.clone(), d.clone());
+            // with events missing the automata are out of step with the real run: whatever they
+            // flagged after that point is an artefact, the run is only inconclusive
+            if !truncated {
+                for (sig, d) in r.violations.iter() {
+                    dst.violation(sig.clone(), d.clone());
+                }
             }
             for smp in r.samples.iter() {
                 dst.sample(smp.clone());
@@ -231,6 +235,10 @@ pub fn finish() -> ! {
         let mut reps = w.reports.lock().unwrap();
         for name in ["C01", "C02", "C03"] {
             reps.entry(name.to_string()).or_insert_with(|| Report::new(name));
+        }
+        if w.cfg.is_concurrent() {
+            // a run without a concurrent cycle (e.g. concurrent marking disabled) still reports
+            reps.entry("C12".to_string()).or_insert_with(|| Report::new("C12"));
         }
         for r in reps.values_mut() {
             r.note(format!("variant {} {}", cfg::variant_name(), w.cfg.describe()));
